@@ -163,6 +163,7 @@ fn vals(v: &[V]) -> Vec<In> {
 
 fn main() {
 	refmodel::set_eps(eps());
+	refmodel::set_floor(ValueType::MIN_POSITIVE as f64);
 	let mut h = H::start("C14");
 	let thorough = h.thorough();
 	// crossing family
